@@ -7,7 +7,7 @@ import Mathlib.Tactic.Positivity
 -/
 open ML
 
-variable {n : ℕ} {α : Type}
+variable {n k d : ℕ} {α : Type}
 
 /-- the denominator of the softmax is positive as soon as there is another sample -/
 theorem softmax_denom_pos (e : Mat ℝ n n) (i : Fin n) (h : ∃ l : Fin n, l ≠ i) :
@@ -169,3 +169,163 @@ theorem C10_zero_iter (obj : α → ℝ) (stepFrom : α → ℝ → α) (btFuel 
   unfold lmnnFit
   have : maxIter - 2 = 0 := by omega
   rw [this]; rfl
+
+/-! ## LMNN: the value computed by `_loss_grad` is the documented objective -/
+
+theorem lsum_eq_sum (l : List ℝ) : lsum l = l.sum := by
+  induction l with
+  | nil => rfl
+  | cons a t ih => simp [lsum, ih]
+
+/-- `⟨L·G, L⟩` is linear in `G` -/
+theorem frobLL_lin (L : Mat ℝ k d) (A B : Mat ℝ d d) (c1 c2 : ℝ) :
+    frob (matMul L (fun a b => c1 * A a b + c2 * B a b)) L = c1 * frob (matMul L A) L + c2 * frob (matMul L B) L := by
+  simp only [frob, matMul, vsum_eq_sum, Finset.mul_sum, Finset.sum_mul, ← Finset.sum_add_distrib]
+  apply Finset.sum_congr rfl; intro r _
+  apply Finset.sum_congr rfl; intro b _
+  apply Finset.sum_congr rfl; intro a _
+  ring
+
+theorem frobLL_zero (L : Mat ℝ k d) : frob (matMul L (fun _ _ => (0:ℝ))) L = 0 := by
+  simp [frob, matMul, vsum_eq_sum]
+
+/-- `⟨L·vvᵀ, L⟩ = ‖Lv‖²` -/
+theorem frobLL_outer (L : Mat ℝ k d) (v : Vec ℝ d) :
+    frob (matMul L (fun a b => v a * v b)) L = sumSq (transform L v) := by
+  simp only [frob, matMul, sumSq, transform, vecMulT, vsum_eq_sum]
+  apply Finset.sum_congr rfl; intro r _
+  rw [Finset.sum_mul_sum]
+  apply Finset.sum_congr rfl; intro b _
+  rw [Finset.sum_mul]
+  apply Finset.sum_congr rfl; intro a _
+  ring
+
+theorem frobLL_sumOuter (L : Mat ℝ k d) (X : Mat ℝ n d) (ps : List (Fin n × Fin n)) :
+    frob (matMul L (sumOuterPairs X ps)) L = lsum (ps.map fun p => embSqDist L X p.1 p.2) := by
+  induction ps with
+  | nil =>
+    have : sumOuterPairs X ([] : List (Fin n × Fin n)) = fun _ _ => (0:ℝ) := by funext a b; simp [sumOuterPairs, lsum]
+    rw [this, frobLL_zero]; simp [lsum]
+  | cons p t ih =>
+    have : sumOuterPairs X (p :: t) = fun a b => 1 * ((X p.1 a - X p.2 a) * (X p.1 b - X p.2 b)) + 1 * sumOuterPairs X t a b := by
+      funext a b; simp [sumOuterPairs, lsum]
+    rw [this, frobLL_lin, ih]
+    have h := frobLL_outer L (vsub (X p.1) (X p.2))
+    simp only [vsub] at h
+    simp only [List.map_cons, lsum, embSqDist, one_mul]
+    rw [← h]
+
+theorem lsum_map_add (l : List α) (f g : α → ℝ) : lsum (l.map fun t => f t + g t) = lsum (l.map f) + lsum (l.map g) := by
+  induction l with
+  | nil => simp [lsum]
+  | cons a t ih => simp only [List.map_cons, lsum, ih]; ring
+
+theorem lsum_map_const (l : List α) (c : ℝ) : lsum (l.map fun _ => c) = (l.length : ℝ) * c := by
+  induction l with
+  | nil => simp [lsum]
+  | cons a t ih => simp only [List.map_cons, lsum, ih, List.length_cons]; push_cast; ring
+
+/-- hinge over all candidates = sum over the active ones -/
+theorem lsum_hinge_filter (l : List α) (h : α → ℝ) :
+    lsum (l.map fun t => smax 0 (h t)) = lsum ((l.filter fun t => decide (0 < h t)).map h) := by
+  induction l with
+  | nil => simp [lsum]
+  | cons a t ih =>
+    simp only [List.map_cons, lsum, List.filter_cons, smax_real]
+    have ih' : lsum (List.map (fun t => max 0 (h t)) t) = lsum (List.map h (List.filter (fun t => decide (0 < h t)) t)) := by
+      simpa only [smax_real] using ih
+    by_cases hp : 0 < h a
+    · simp only [hp, decide_true, if_true, List.map_cons, lsum, max_eq_right hp.le, ih']
+    · simp only [hp, decide_false, Bool.false_eq_true, if_false, max_eq_left (not_lt.mp hp), ih', zero_add]
+
+/-- **the value `_loss_grad` returns is the documented objective**: for every list of target pairs and every
+list of candidate triples (any superset of the impostor triples the code finds, repetitions allowed),
+`total_active·(1 − reg) + ⟨L(dfG·reg + df·(1 − reg)), L⟩ = reg·Σ_T d_ij + (1 − reg)·Σ [1 + d_ij − d_il]₊` -/
+theorem C10_lmnn_code_objective (L : Mat ℝ k d) (X : Mat ℝ n d) (targetPairs : List (Fin n × Fin n))
+    (triples : List (Fin n × Fin n × Fin n)) (reg : ℝ) :
+    (lmnnCodeObjective L X targetPairs triples reg).1 = lmnnDocObjectiveL L X targetPairs triples reg := by
+  unfold lmnnCodeObjective lmnnDocObjectiveL
+  simp only
+  set act := lmnnActive L X triples with hact
+  have hG : (fun a b => sumOuterPairs X targetPairs a b * reg +
+        (sumOuterPairs X (act.map fun t => (t.1, t.2.1)) a b - sumOuterPairs X (act.map fun t => (t.1, t.2.2)) a b) * (1 - reg))
+      = fun a b => reg * sumOuterPairs X targetPairs a b + (1 - reg) *
+          (1 * sumOuterPairs X (act.map fun t => (t.1, t.2.1)) a b + (-1) * sumOuterPairs X (act.map fun t => (t.1, t.2.2)) a b) := by
+    funext a b; ring
+  rw [hG, frobLL_lin, frobLL_lin, frobLL_sumOuter, frobLL_sumOuter, frobLL_sumOuter]
+  rw [lsum_hinge_filter]
+  have hfilter : (triples.filter fun t => decide (0 < 1 + embSqDist L X t.1 t.2.1 - embSqDist L X t.1 t.2.2)) = act := by
+    rw [hact]; unfold lmnnActive
+    apply List.filter_congr; intro t _
+    simp only [decide_eq_decide]
+    constructor <;> intro h <;> linarith
+  rw [hfilter]
+  have e3 : lsum (act.map fun t => 1 + embSqDist L X t.1 t.2.1 - embSqDist L X t.1 t.2.2)
+      = (act.length : ℝ) + lsum (act.map fun t => embSqDist L X t.1 t.2.1) - lsum (act.map fun t => embSqDist L X t.1 t.2.2) := by
+    have : (fun t : Fin n × Fin n × Fin n => 1 + embSqDist L X t.1 t.2.1 - embSqDist L X t.1 t.2.2)
+        = fun t => (1 + embSqDist L X t.1 t.2.1) + (-1) * embSqDist L X t.1 t.2.2 := by funext t; ring
+    rw [this, lsum_map_add, lsum_map_add, lsum_map_const]
+    have : lsum (act.map fun t => (-1) * embSqDist L X t.1 t.2.2) = - lsum (act.map fun t => embSqDist L X t.1 t.2.2) := by
+      induction act with
+      | nil => simp [lsum]
+      | cons a t ih => simp only [List.map_cons, lsum, ih]; ring
+    rw [this]; ring
+  rw [e3]
+  simp only [List.map_map, Function.comp_def, ofNat_real]
+  ring
+
+/-- the count `_loss_grad` reports is the number of strictly positive hinge terms -/
+theorem C10_lmnn_total_active (L : Mat ℝ k d) (X : Mat ℝ n d) (targetPairs : List (Fin n × Fin n))
+    (triples : List (Fin n × Fin n × Fin n)) (reg : ℝ) :
+    (lmnnCodeObjective L X targetPairs triples reg).2 =
+      (triples.filter fun t => decide (0 < 1 + embSqDist L X t.1 t.2.1 - embSqDist L X t.1 t.2.2)).length := by
+  unfold lmnnCodeObjective lmnnActive
+  simp only
+  congr 1
+  apply List.filter_congr; intro t _
+  simp only [decide_eq_decide]
+  constructor <;> intro h <;> linarith
+
+theorem lsum_append (a b : List ℝ) : lsum (a ++ b) = lsum a + lsum b := by
+  induction a with
+  | nil => simp [lsum]
+  | cons x t ih => simp only [List.cons_append, lsum, ih]; ring
+
+theorem lsum_flatMap_map {β γ : Type} (l : List β) (f : β → List γ) (g : γ → ℝ) :
+    lsum ((l.flatMap f).map g) = lsum (l.map fun a => lsum ((f a).map g)) := by
+  induction l with
+  | nil => simp [lsum]
+  | cons a t ih => simp only [List.flatMap_cons, List.map_append, lsum_append, List.map_cons, lsum, ih]
+
+theorem vsum_eq_lsum (f : Fin n → ℝ) : vsum f = lsum ((List.finRange n).map f) := by
+  rw [vsum_eq_sum, lsum_eq_sum, ← List.ofFn_eq_map, List.sum_ofFn]
+
+theorem foldl_add_eq (l : List α) (f : α → ℝ) (c : ℝ) : l.foldl (fun acc j => acc + f j) c = c + lsum (l.map f) := by
+  induction l generalizing c with
+  | nil => simp [lsum]
+  | cons a t ih => simp only [List.foldl_cons, ih, List.map_cons, lsum]; ring
+
+theorem lsum_filter_map (l : List α) (p : α → Bool) (h : α → ℝ) :
+    lsum ((l.filter p).map h) = lsum (l.map fun x => if p x then h x else 0) := by
+  induction l with
+  | nil => simp [lsum]
+  | cons a t ih =>
+    simp only [List.filter_cons, List.map_cons, lsum]
+    cases hp : p a
+    · simp [ih]
+    · simp [lsum, ih]
+
+/-- the documented objective in its nested form (`lmnnObjective`) and over the flat candidate lists -/
+theorem C10_lmnn_doc_forms (L : Mat ℝ k d) (X : Mat ℝ n d) (y : Fin n → Int) (targets : Fin n → List (Fin n)) (reg : ℝ) :
+    lmnnObjective L X y targets reg = lmnnDocObjectiveL L X (allTargetPairs targets) (allTriples y targets) reg := by
+  unfold lmnnObjective lmnnDocObjectiveL allTargetPairs allTriples
+  simp only [vsum_eq_lsum, foldl_add_eq, zero_add, lsum_flatMap_map, List.map_map, Function.comp_def, lsum_filter_map]
+  have : ∀ (i j l : Fin n), (if y l = y i then (0:ℝ) else smax 0 (1 + embSqDist L X i j - embSqDist L X i l))
+      = (if decide (y l ≠ y i) = true then smax 0 (1 + embSqDist L X i j - embSqDist L X i l) else 0) := by
+    intro i j l; by_cases h : y l = y i <;> simp [h]
+  simp only [this]
+
+/-- **LMNN, code value = documented objective**, on the candidates of a target assignment -/
+theorem C10_lmnn_code_eq_doc (L : Mat ℝ k d) (X : Mat ℝ n d) (y : Fin n → Int) (targets : Fin n → List (Fin n)) (reg : ℝ) :
+    (lmnnCodeObjective L X (allTargetPairs targets) (allTriples y targets) reg).1 = lmnnObjective L X y targets reg := by
+  rw [C10_lmnn_code_objective, C10_lmnn_doc_forms]
